@@ -158,7 +158,8 @@ def nontrivial(case, sched, starts, info):
 mon.SPECS[PID] = mon.Spec(PID, ("history", "exceptions"), RULE, [
     "the trace differential is applied to the first (API-started) execution when the reference is deterministic (no concurrent ambiguous failures, no in-band Error data, single retrier)",
     "task lifecycle events (LambdaFunctionScheduled, TaskSucceeded, ...) are checked for numbering/order only, not against a reference",
-], nontrivial=nontrivial, extra=extra, run_kwargs={"probe": probe})
+], nontrivial=nontrivial, extra=extra, run_kwargs={"probe": probe}, variants=lambda: __import__("hypothesis").strategies.sampled_from(
+    [{}, {}, {"logging": "ALL"}, {"logging": "ERROR"}]))
 
 
 def main(tier, seed, replay=None):
